@@ -111,6 +111,19 @@ theorem in_item_error_skips_list (n : Nat) (it l : Expr) (s : St)
     (hi : (evalExpr n it s).err.isSome = true) : evalExpr (n + 1) (.incl it l) s = evalExpr n it s := by
   simp [evalExpr, hi]
 
+/-- `x[i]`: the container, then the index operand - ALWAYS, also when the container turns out not to be
+indexable: the kind of the container is inspected only after both operands were evaluated (so the side effects
+of the index operand happen, and the error comes after them): the probe trace of the whole expression is the
+trace after both operands, whatever the container is. -/
+theorem index_evaluates_index_operand_before_kind_check (n : Nat) (x i : Expr) (s : St)
+    (hx : (evalExpr n x s).err.isSome = false) :
+    (evalExpr (n + 1) (.item x i) s).trace = (evalExpr n i (evalExpr n x s)).trace := by
+  simp only [evalExpr, hx, Bool.false_eq_true, if_false]
+  split
+  · rfl
+  · repeat' split
+    all_goals first | rfl | simp [St.fail, St.markUnsup]
+
 theorem index_operand_then_index (n : Nat) (x i : Expr) (s : St)
     (hx : (evalExpr n x s).err.isSome = true) : evalExpr (n + 1) (.item x i) s = evalExpr n x s := by
   simp [evalExpr, hx]
